@@ -86,7 +86,12 @@ def reference(helper, xs, drop_na=None, numeric_kind=True, **kw):
     if helper == "sum":
         if na_in:
             return ("missing",)
-        return ("value", math.fsum(num(v) for v in vals) if any(isinstance(v, float) for v in vals) else sum(num(v) for v in vals))
+        if any(isinstance(v, float) for v in vals):
+            return ("value", math.fsum(num(v) for v in vals))
+        total = sum(num(v) for v in vals)
+        if not -2 ** 63 <= total < 2 ** 63:
+            return ("any",)  # the sum of an int64 column that does not fit int64 is not representable in the column's type
+        return ("value", total)
     if helper in ("mean", "median", "quantile"):
         if n < 1:
             return ("missing",)
